@@ -192,6 +192,20 @@ def rand_buffer_type(r, spec, namer, space, access):
 
 
 def rand_resource(r, spec, namer, group, binding, tex_item=None):
+    same = [g for g in spec_globals_so_far(spec) if g.kind == "buffer" and g.group == group and
+            g.ty[0] == "st" and not W.has_runtime_array(spec.structs[g.ty[1]])]
+    if tex_item is None and same and r.random() < 0.2:
+        # a second variable of the SAME struct type in this group (ping-pong buffers)
+        g0 = r.choice(same)
+        space, access = g0.space, g0.access
+        if g0.space == "storage" and r.random() < 0.5 and "atomic" not in W.wgsl(g0.ty) and \
+                not any("atomic" in W.wgsl(m["ty"]) for n_ in [g0.ty[1]] +
+                        W.reachable_structs(g0.ty, spec.structs)
+                        for m in spec.structs[n_].members):
+            access = "read" if g0.access == "read_write" else "read_write"
+        g = Global(namer.fresh("g"), "buffer", space=space, access=access, ty=g0.ty, group=group,
+                   binding=binding)
+        return g
     name = namer.fresh("g")
     if tex_item is not None:
         return Global(name, "texture", tex=dict(tex_item), group=group, binding=binding)
@@ -370,6 +384,12 @@ def finish_entries(r, spec, namer, simple=True):
                 e.workgroup_expected = e.workgroup_size + [1] * (3 - dims)
 
 
+def spec_globals_so_far(spec):
+    if not hasattr(spec, "_pending_globals"):
+        spec._pending_globals = []
+    return spec._pending_globals
+
+
 # ---------------------------------------------------------------------------------------------
 # families
 
@@ -427,7 +447,9 @@ def fam_bind(r, idx, sweep=None, pc_only=False):
         idxs = index_list(r, nb)
         for b in idxs:
             item = sweep.pop() if sweep else None
-            decls.append(rand_resource(r, spec, namer, gi, b, item))
+            g_ = rand_resource(r, spec, namer, gi, b, item)
+            decls.append(g_)
+            spec_globals_so_far(spec).append(g_)
     # make sure samplers have something to sample
     if any(g.kind == "sampler" and not g.comparison for g in decls) and \
             not any(g.kind == "texture" and g.tex["cls"] == "sampled" and
@@ -472,7 +494,8 @@ def fam_bind(r, idx, sweep=None, pc_only=False):
                             "accesses_per_global": (1, 2)} if ngroups == 0 else {}))
     spec.families.append("graph:" + shape)
     pcs = [g for g in spec.globals if g.kind == "push"]
-    if pc_only and pcs and not no_entries and r.random() < 0.7:
+    directed_pc = bool(pc_only and pcs and not no_entries)
+    if pc_only and pcs and not no_entries and r.random() < 0.5:
         # every variable of the module is already known to a stage when a second entry point
         # of that stage comes along; an entry point of ANOTHER stage follows and uses it too
         sa, sb = r.sample(["vertex", "fragment", "compute"], 2)
@@ -484,7 +507,51 @@ def fam_bind(r, idx, sweep=None, pc_only=False):
             e.actions.append(Action("access", "top", glob=[pcs[0].name], form=form, expr=e_,
                                     stmt=None))
         spec.entries = [a1, a2, b1] + [e for e in spec.entries if r.random() < 0.4]
-    if pcs and spec.entries and r.random() < 0.6:
+    elif pc_only and pcs and not no_entries:
+        # (i) stages interleaved A B A, a helper reading the push constant called by B and the
+        # later A only; (ii) the push constant behind a chain of 20 helpers
+        for h_ in spec.funcs + spec.entries:
+            h_.actions = [a for a in h_.actions if not (a.what == "access" and
+                                                        pcs[0].name in (a.glob or []))]
+        sa, sb = r.sample(["vertex", "fragment", "compute"], 2)
+        pre = {"vertex": "vs_", "fragment": "fs_", "compute": "cs_"}
+        leaf = Func(namer.fresh("fn_pcleaf_"), r.random() < 0.5)
+        form, e_, s_ = buffer_forms(pcs[0], spec.structs, prefer=r.randrange(8))[0]
+        leaf.actions.append(Action("access", r.choice(S_SITES[:13]), glob=[pcs[0].name], form=form,
+                                   expr=e_, stmt=None))
+        chain = [leaf]
+        depth = r.choice([0, 17, 20, 33])
+        for k in range(depth):
+            f = Func(namer.fresh("fn_pcchain_"), chain[-1].returns_value and r.random() < 0.5)
+            prev_ = chain[-1]
+            if prev_.returns_value:
+                f.actions.append(Action("call", "let_init", callee=prev_.name,
+                                        expr="%s()" % prev_.name, stmt=None))
+            else:
+                f.actions.append(Action("call", r.choice(S_SITES[:13]), callee=prev_.name,
+                                        expr=None, stmt="%s();" % prev_.name))
+            chain.append(f)
+        spec.funcs += chain
+        top = chain[-1]
+
+        def calls_top(e):
+            if top.returns_value:
+                e.actions.append(Action("call", "let_init", callee=top.name,
+                                        expr="%s()" % top.name, stmt=None))
+            else:
+                e.actions.append(Action("call", "top", callee=top.name, expr=None,
+                                        stmt="%s();" % top.name))
+        a1, b1, a2 = Entry(namer.fresh(pre[sa]), sa), Entry(namer.fresh(pre[sb]), sb), \
+            Entry(namer.fresh(pre[sa]), sa)
+        calls_top(b1)
+        calls_top(a2)
+        spec.entries = [a1, b1, a2]
+        sc = [s_ for s_ in ("vertex", "fragment", "compute") if s_ not in (sa, sb)][0]
+        if depth or r.random() < 0.5:
+            # an entry point of the third stage that stays out (so "unused, every stage" and
+            # "used by two stages" differ)
+            spec.entries.insert(r.randint(0, 3), Entry(namer.fresh(pre[sc]), sc))
+    if pcs and spec.entries and not directed_pc and r.random() < 0.6:
         # the push constant is (also) read by a dedicated helper without return value that one
         # or two entry points call from a random statement position (incl. continuing blocks
         # and for-update clauses)
@@ -1127,6 +1194,16 @@ def role_structs(r, spec, namer):
             f5.result = r.choice([None, {"kind": "location", "location": 0, "ty": "vec4<f32>"}])
             ents.append(f5)
     if r.random() < 0.3:
+        # an entry point WITHOUT parameters returns a struct that another entry point takes
+        vo0 = io_struct(r, spec, namer, "VOutNoArgs", with_position=True)
+        v0 = Entry(namer.fresh("vs_"), "vertex")
+        v0.params = []
+        v0.result = {"kind": "struct", "struct": vo0}
+        f0 = Entry(namer.fresh("fs_"), "fragment")
+        f0.params = [{"name": "fin", "struct": vo0}]
+        f0.result = r.choice([None, {"kind": "location", "location": 0, "ty": "vec4<f32>"}])
+        ents += [v0, f0] if r.random() < 0.5 else [f0, v0]
+    if r.random() < 0.3:
         # a struct that only fragment entry points return and that is also a parameter (the
         # same entry, or another one): a stage output, never filled by the host
         fl = io_struct(r, spec, namer, "FLoop", flat_ints=False,
@@ -1274,6 +1351,13 @@ def fam_entry(r, idx):
                     mine.sort()
                 name = namer.fresh(r.choice(["Vertex", "Instance", "In", "Attr"]))
                 name = name[0].upper() + name[1:]
+                if shared_pool and r.random() < 0.08:
+                    # differs from an existing struct's name in capitalisation only
+                    base_ = shared_pool[-1]
+                    cand = base_[0] + "".join(ch.swapcase() if k_ == 1 else ch
+                                              for k_, ch in enumerate(base_[1:], 1))
+                    if cand != base_ and cand not in spec.structs and cand.lower() == base_.lower():
+                        name = cand
                 ms = []
                 if n and r.random() < 0.08:
                     # location numbers far beyond any device limit are still the shader's numbers
@@ -1397,6 +1481,17 @@ def fam_entry(r, idx):
     # a little state so entries can touch something
     spec.globals.append(Global(namer.fresh("g"), "buffer", space="storage", access="read_write",
                                ty=W.A(W.S("f32"), 4), group=0, binding=0))
+    u32_ovs = [o for o in spec.overrides if o["ty"] == "u32" and not o.get("decl_ty")]
+    if u32_ovs and any(e.stage == "compute" for e in ents) and r.random() < 0.5:
+        # an override that is (also) the length of a workgroup array
+        ov_ = r.choice(u32_ovs)
+        ov_["array_len"] = True
+        if ov_.get("default") is not None and not str(ov_["default"])[0].isdigit():
+            ov_["default"] = "8u"
+        elif ov_.get("default") in ("0u", "4294967295u"):
+            ov_["default"] = "9u"
+        spec.globals.append(Global(namer.fresh("wg_tile"), "workgroup", ty=W.A(W.S("f32"), 4),
+                                   len_override=ov_["name"]))
     for s_ in shared_pool:
         if r.random() < 0.25:
             # an ordinary helper that takes and returns the vertex input struct
@@ -1538,6 +1633,19 @@ def fam_const(r, idx):
             else:
                 c = {"name": name, "decl": "const %s = %s;" % (name, p["name"]),
                      "ty": p["ty"], "bits": p["bits"]}
+        elif k < 0.93 and prev and any(p_["ty"] in ("f32", "u32", "i32") for p_ in prev):
+            # a composite constant that mentions an earlier scalar constant as a component /
+            # takes a component back out of a composite (both stay exported scalars / skipped
+            # composites on their own terms)
+            p_ = r.choice([q for q in prev if q["ty"] in ("f32", "u32", "i32")])
+            vt = {"f32": ("vec3<f32>", "1.0, 2.0"), "u32": ("vec3<u32>", "1u, 2u"),
+                  "i32": ("vec3<i32>", "1, 2")}[p_["ty"]]
+            form = r.choice(["compose", "splat", "array"])
+            decl = {"compose": "const %s = %s(%s, %s);" % (name, vt[0], p_["name"], vt[1]),
+                    "splat": "const %s = %s(%s);" % (name, vt[0], p_["name"]),
+                    "array": "const %s = array<%s, 2>(%s, %s);" % (
+                        name, p_["ty"], p_["name"], p_["name"])}[form]
+            c = {"name": name, "decl": decl, "ty": "vector", "bits": None, "skipped": True}
         else:
             # non-scalar constants must be skipped
             decl = r.choice(["const %s = vec3<f32>(1.0, 2.0, 3.0);", "const %s = vec2<u32>();",
@@ -1599,7 +1707,8 @@ def fam_const(r, idx):
     spec.consts_one_line = r.random() < 0.2
     spec.no_final_newline = r.random() < 0.25
     spec.final_comment = r.random() < 0.4
-    spec.entries = [Entry(namer.fresh("cs_"), "compute")]
+    spec.entries = [Entry(r.choice(["light_source", "source", "cs_source", "resource"])
+                          if r.random() < 0.1 else namer.fresh("cs_"), "compute")]
     spec.entries[0].workgroup_size = [1]
     spec.entries[0].workgroup_expected = [1, 1, 1]
     return spec
